@@ -303,7 +303,7 @@ func (m *Monitor) Before(g *Gen, line string) {
 		return
 	}
 	switch w[0] {
-	case "world", "send", "cancel", "reqbatch", "begin", "end", "vote", "fund", "confirm", "delegate", "q_confs", "q_unsigned_sets", "q_unsigned_batches", "staking":
+	case "world", "send", "cancel", "reqbatch", "begin", "end", "vote", "fund", "confirm", "delegate", "delegatek", "q_confs", "q_unsigned_sets", "q_unsigned_batches", "staking":
 		m.before = m.snap(g)
 	default:
 		m.before = nil
@@ -671,7 +671,7 @@ func (m *Monitor) checkC16(g *Gen, w []string, out string, b, a *snapshot) {
 
 func (m *Monitor) checkC17(g *Gen, w []string, out string, b, a *snapshot) {
 	switch w[0] {
-	case "delegate":
+	case "delegate", "delegatek":
 		// delegate chain val orch eth signedBy signedVal signedNonce accSeq
 		chain, val, orch, eth := w[1], w[2], w[3], w[4]
 		seq, _ := strconv.ParseUint(w[8], 10, 64)
@@ -717,6 +717,30 @@ func (m *Monitor) checkC17(g *Gen, w []string, out string, b, a *snapshot) {
 				}
 			} else {
 				m.report(g, "registry-maps-inconsistent", fmt.Sprintf("chain %s validator %s ext %s has no orchestrator", chain, v, e))
+			}
+		}
+		if out == "err" && sigOK && known && gethcommon.IsHexAddress(eth) {
+			// refused although the validator's own account sent it with the key's signature over (validator, sequence):
+			// only an address or orchestrator that is already bound may stand in the way (the state is unchanged)
+			inUse := false
+			for _, e := range valExt {
+				if strings.EqualFold(e, eth) {
+					inUse = true
+				}
+			}
+			for _, o := range extOrch {
+				if o == orch {
+					inUse = true
+				}
+			}
+			known2 := false
+			for _, c := range g.chains {
+				if c == chain {
+					known2 = true
+				}
+			}
+			if !inUse && known2 && ethKeyByAddr[eth] != nil {
+				m.report(g, "self-authorised-registration-refused", fmt.Sprintf("%v", w))
 			}
 		}
 		if out == "ok" {
